@@ -31,4 +31,62 @@ GROUPS = [
         "assumptions": ["bit-range table in kani/packet/src/c12_fields.rs is the RFC oracle (RFC 791, 8200, 768, "
                         "9293+3540, 792, 4443, 4884, 4950)"],
     },
+    # ------------------------------------------------------------------ C04 (packet views)
+    {
+        "id": "C04.accessors", "property": "C04", "crate": "packet", "tier": "quick-only", "harnesses": ["c04_acc_"],
+        "jobs": 16, "timeout_s": 300, "mem_gb": 8,
+        "functions": PACKET_VIEWS + ["every getter, payload, payload_raw, extension, get_options_raw(_mut), header, packet"],
+        "bounds": "arbitrary buffer of 64 bytes, arbitrary view length in [minimum header, 64]; every IHL / data-offset / "
+                  "payload-length / RFC 4884 length-byte value against every buffer length",
+    },
+    {
+        "id": "C04.accessors.N160", "property": "C04", "crate": "packet", "tier": "thorough", "harnesses": ["c04_acc_"],
+        "env": {"VERIF_THOROUGH": "1"}, "jobs": 16, "timeout_s": 1800, "mem_gb": 12,
+        "functions": PACKET_VIEWS,
+        "bounds": "arbitrary buffer of 160 bytes (> 128 + 8 + 4, so the RFC 4884 extension branch is live), arbitrary view "
+                  "length in [minimum header, 160]",
+    },
+    {
+        "id": "C04.iterators", "property": ["C04", "C14"], "crate": "packet", "harnesses": ["c04_iter_"], "jobs": 4,
+        "timeout_s": 600, "mem_gb": 8,
+        "functions": ["ExtensionObjectIter::next", "MplsLabelStackIter::next", "ExtensionsPacket::{header,objects}",
+                      "ExtensionObjectPacket::{get_length,payload}", "MplsLabelStackMemberPacket::get_bos"],
+        "bounds": "arbitrary extension structure / label stack of <= 32 bytes, arbitrary length; unwind 11 = 32/4 + 3: the "
+                  "unwinding assertion is the termination proof within the bound",
+    },
+    {
+        "id": "C14.split", "property": ["C04", "C14"], "crate": "packet", "harnesses": ["c14_split_"], "jobs": 8,
+        "timeout_s": 600, "mem_gb": 8,
+        "functions": ["extension_splitter::split", "icmpv4/icmpv6 TimeExceededPacket/DestinationUnreachablePacket::"
+                      "{split_payload_extension,payload,payload_raw,extension,get_length}"],
+        "bounds": "every length 0..=2040 x every ICMP body length 0..=1024 (content-independent: zero buffer); the four "
+                  "real views for every length byte 0..=255 x every message length 8..=1032",
+    },
+    # ------------------------------------------------------------------ C13 (codec)
+    {
+        "id": "C13.codec.N64", "property": "C13", "crate": "packet", "tier": "quick-only", "harnesses": ["c13_"],
+        "jobs": 16, "timeout_s": 600, "mem_gb": 8,
+        "functions": ["checksum::{icmp_ipv4_checksum,icmp_ipv6_checksum,udp_ipv4_checksum,udp_ipv6_checksum,"
+                      "tcp_ipv4_checksum,ipv4_header_checksum,sum_be_words,finalize_checksum,ipv4_checksum,ipv6_checksum}"],
+        "bounds": "symbolic content AND symbolic length in [header, 64] (odd and even), symbolic address pairs; folding "
+                  "lemma over all 2^32 partial sums",
+        "assumptions": ["reference = plain RFC 1071 word loop in kani/packet/src/c13_checksum.rs with the checksum field "
+                        "read as zero; 'sums to 0xFFFF after insertion' follows by the folding lemma c13_fold_lemma"],
+    },
+    {
+        "id": "C13.codec.N256", "property": "C13", "crate": "packet", "tier": "thorough", "harnesses": ["c13_"],
+        "env": {"VERIF_THOROUGH": "1"}, "jobs": 8, "timeout_s": 3000, "mem_gb": 16,
+        "functions": ["checksum::* (as C13.codec.N64)"],
+        "bounds": "symbolic content AND symbolic length in [header, 256], symbolic address pairs",
+    },
+    # ------------------------------------------------------------------ C14 (codec)
+    {
+        "id": "C14.objects", "property": "C14", "crate": "packet", "harnesses": ["c14_objects_", "c14_original_"],
+        "jobs": 4, "timeout_s": 600, "mem_gb": 8,
+        "functions": ["ExtensionsPacket::objects", "ExtensionObjectPacket::{set_*,get_*,payload}",
+                      "MplsLabelStackPacket::members", "MplsLabelStackMemberPacket::{set_*,get_*}",
+                      "TimeExceededPacket::{set_length,set_payload,payload,extension}"],
+        "bounds": "<= 2 objects: one MPLS object with 1..=2 symbolic members, one opaque object with 0..=4 symbolic bytes; "
+                  "original datagram of 136 symbolic bytes + 12-byte extension",
+    },
 ]
